@@ -144,6 +144,38 @@ def runFrom (fixed : Bool) (st : St) (ops : List Op) : St :=
 
 def run (fixed : Bool) (ops : List Op) : St := runFrom fixed {} ops
 
+/-! ## The agent's send loop as a whole
+
+`Agent.sendUsageReport`: `NewReport`; on error return it.  Otherwise `SendCustomMessage` (once, or
+twice when the first answer is "pending"); meanwhile the health-check goroutine may call `Add`
+(`mids`); if the client accepted the message wait for it to go out and call `completeSend`
+(`deliver = true`: outcomes success / pending-then-success), otherwise return the error
+(`deliver = false`: failure / pending-then-failure). -/
+
+inductive AOp where
+  | add (s v : Nat)
+  | tick (deliver : Bool) (mids : List (Nat × Nat))
+  deriving Repr, DecidableEq
+
+/-- the tracker calls (and give-ups) an agent-level operation performs in state `st` -/
+def AOp.expand (fixed : Bool) (st : St) : AOp → List Op
+  | .add s v => [.add s v]
+  | .tick deliver mids =>
+    match (step fixed st .report).2 with
+    | .report _ => .report :: (mids.map fun m => Op.add m.1 m.2) ++ [if deliver then .sent else .fail]
+    | _ => [.report]
+
+def astep (fixed : Bool) (st : St) (a : AOp) : St := runFrom fixed st (a.expand fixed st)
+
+def arunFrom (fixed : Bool) (st : St) (as : List AOp) : St := as.foldl (astep fixed) st
+
+def arun (fixed : Bool) (as : List AOp) : St := arunFrom fixed {} as
+
+/-- the history of tracker calls an agent-level history amounts to -/
+def aops (fixed : Bool) (st : St) : List AOp → List Op
+  | [] => []
+  | a :: r => a.expand fixed st ++ aops fixed (astep fixed st a) r
+
 /-! ## Quantities of the property -/
 
 /-- every contribution the model still knows about, wherever it is -/
